@@ -589,7 +589,8 @@ def dispatcher(name, local, callees):
     """def NAME(p): LOCAL = val; x = val; while cond: pick {rebind, call..., raise, return}"""
     arms = [
         [["bind", local, V]],
-        [["bind", "x", V]],
+        # (one of the two places that bind x carries a tag, the other does not)
+        [["ann", "x", '"@A"', V]],
     ]
     for c in callees:
         arms.append([["bind", "r", ["call", c, [V]]]])
@@ -777,7 +778,9 @@ def reg_program():
         fn("coro", ["p"], body("x"), **{"async": True}),
     ]
     prog["closures"] = [
-        {"factory": "mk", "free": {"c0": 41}, "fn": fn("inner", ["p"], body("x"), free=["c0"])},
+        # (a true closure: it reads the variable of its factory)
+        {"factory": "mk", "free": {"c0": 41},
+         "fn": fn("inner", ["p"], [["bind", "x", V], use("x", "p", "c0"), ["ret", var("x")]], free=["c0"])},
     ]
     return prog
 
